@@ -1,4 +1,4 @@
-(* C26 -- Bergstrom-Boyce 1998 (decision tree with three leaves) *)
+(* C26 -- Bergstrom-Boyce 1998 (decision tree with three leaves): oddness, value, positive slope *)
 From Coq Require Import Reals List Lra Psatz.
 From Coquelicot Require Import Coquelicot.
 From Interval Require Import Tactic.
@@ -35,15 +35,3 @@ Proof.
   - assert (1 / (-1 - y) < 0) by (apply Ropp_lt_cancel; replace (- (1 / (-1 - y))) with (1 / (1 + y)) by (field; ad_side); rewrite Ropp_0; apply Rdiv_lt_0_compat; lra). nra.
 Qed.
 
-Lemma bb_inverts_low : inverts bbf (1 / 20) (84 / 100) (1 / 1000).
-Proof.
-  intros y Hy. unfold bbf, bb_f. cbv zeta. rewrite (Rabs_right y) by lra.
-  destruct (Rlt_dec y _) as [Hs|Hb]; [|exfalso; lra]. cbv iota beta.
-  unfold Lang. interval with (i_bisect y, i_depth 18, i_prec 40).
-Qed.
-Lemma bb_inverts_high : inverts bbf (8414 / 10000) (95 / 100) (1 / 1000).
-Proof.
-  intros y Hy. unfold bbf, bb_f. cbv zeta. rewrite (Rabs_right y) by lra.
-  destruct (Rlt_dec y _) as [Hs|Hb]; [exfalso; lra|]. destruct (Rlt_dec 0 y); [|exfalso; lra]. cbv iota beta.
-  unfold Lang. interval with (i_bisect y, i_depth 18, i_prec 40).
-Qed.
